@@ -256,7 +256,6 @@ class SeqCheck {
     if (whole->getCount(pt_any, nullptr) != vis.size() || whole->getCount(pt_masterData, nullptr) != nm || whole->getCount(pt_slaveData, nullptr) != ns) {
       fail("field-count", "getCount any/master/slave = " + std::to_string(whole->getCount(pt_any, nullptr)) + "/" + std::to_string(whole->getCount(pt_masterData, nullptr)) + "/" +
            std::to_string(whole->getCount(pt_slaveData, nullptr)) + ", defined (not ignored) " + std::to_string(vis.size()) + "/" + std::to_string(nm) + "/" + std::to_string(ns));
-      return;
     }
     for (size_t i = 0; i < n; i++) {
       string nmi = "f" + std::to_string(i);
